@@ -288,16 +288,24 @@ def worker(args, scratch):
             for k, url in enumerate(plan):
                 vid = "c11-ka-%s-%d-%d" % (mode, args["shard"], k)
                 denied = not url.startswith("/public")
-                try:
-                    conn.send(rawhttp.build_request("GET", url, [("x-vf-id", vid)]))
-                    st = conn.read_response().status
-                except Exception as e:  # noqa
-                    st = "error:%r" % (e,)
+                for attempt in (0, 1):
                     try:
-                        conn.close()
-                    except Exception:  # noqa
-                        pass
-                    conn = w.open("imds", who)
+                        conn.send(rawhttp.build_request("GET", url, [("x-vf-id", vid)]))
+                        st = conn.read_response().status
+                        break
+                    except Exception as e:  # noqa
+                        st = "error:%r" % (e,)
+                        try:
+                            conn.close()
+                        except Exception:  # noqa
+                            pass
+                        conn = w.open("imds", who)
+                        if attempt == 0 and k > 0 and not common.is_timeout(st):
+                            # the agent had closed the kept-alive connection after its previous answer (it may, e.g. after a denial):
+                            # the request never reached a handler - the same request on a new connection of the same caller
+                            bump("kept_alive_connection_found_closed")
+                            continue
+                        break
                 res["evaluations"] += 1
                 relayed = bool(w.upstream(vid))
                 wit = {"mode": mode, "position_on_connection": k, "url": url, "status": st, "relayed": relayed, "earlier_urls": plan[:k]}
